@@ -47,7 +47,7 @@ def _real_inputs(m):
     return T, m["pr"] * ppc, TpcR - 459.67, ppc
 
 
-def replay_root(model, deviation=False, family=False, grid=False):
+def replay_root(model, deviation=False, family=False, grid=False, low=False):
     """Real z_factor_DAK at the model's point (optionally the pressure family of the witness, or a grid of the validity
     rectangle - a root finder that may stop early fails where it needs most iterations, not where the solver's model lies)."""
     from bluebonnet.fluids import gas
@@ -58,6 +58,9 @@ def replay_root(model, deviation=False, family=False, grid=False):
     if grid:
         pts += [dict(m, Tr=a, pr=b) for a in (1.05, 1.1, 1.15, 1.2, 1.25, 1.3, 1.5, 2.0, 3.0)
                 for b in (0.2, 0.5, 1.0, 2.0, 2.5, 3.0, 3.5, 4.0, 4.5, 6.0, 10.0, 20.0, 30.0)]
+    if low:
+        # low reduced pressures (a fraction of a psi to a few psi): where "Z is about 1" shortcuts live
+        pts += [dict(m, Tr=a, pr=b) for a in (1.05, 1.11, 1.5, 3.0) for b in (1e-4, 1e-3, 3e-3, 9e-3, 2e-2, 5e-2)]
     worst = None
     for q in pts:
         T, p, Tpc, ppc = _real_inputs(q)
@@ -140,7 +143,19 @@ def job_dak(job):
         z, mins, brs = pr_.value
         pc = pr_.pc
         form = "minimize" if mins else "brentq" if brs else None
-        if form is None or len(mins) + len(brs) != 1:
+        if form is None:
+            # a path that returns without asking any root finder (a shortcut, a special case): the returned Z must still
+            # be a root of the equation at its own reduced density
+            rho0 = K("0.27") * pr / (z * Tr)
+            job.prove(f"dak/reach[no root finder, path{k}]", pc, expect="info")
+            job.prove(f"dak/root[deviation; path{k} returns without a root finder]", pc + [T.b_lt(T.ZERO, P(z)),
+                      T.b_or(T.b_lt(T.Poly.const(Fraction(1, 2 * 10**10)), P(dak_residual(rho0, Tr, pr, s_exp, deviation=True))),
+                             T.b_lt(P(dak_residual(rho0, Tr, pr, s_exp, deviation=True)), T.Poly.const(Fraction(-1, 2 * 10**10))))],
+                      bound="rectangle", replay=(replay_root, {"deviation": True, "grid": True, "low": True}))
+            job.prove(f"dak/positive Z[path{k} returns without a root finder]", pc + [T.b_le0(P(z))], bound="rectangle",
+                      replay=(replay_root, {"deviation": True, "grid": True, "low": True}))
+            continue
+        if len(mins) + len(brs) != 1:
             job.errors.append("z_factor_DAK: expected exactly one optimiser / root-finder call")
             continue
         rho = mins[0]["x"][0] if mins else brs[0]["root"]
